@@ -118,21 +118,7 @@ func (m *c10Model) checkDecoder(packed string, fi *FuncInfo) {
 		got, why := m.single(fi, in(own), nil)
 		want := m.vecOf(resT, c10RefOf(m.inputOf(packed, own)))
 		if m.verdict(c, pos, got, why, want, fmt.Sprintf("%s of a %s id", fi.Obj.Name(), own.Name)) {
-			// observation outside the property: does the guard reject other kinds?
-			var through []string
-			for _, k := range m.kindsOf(packed) {
-				if k == own {
-					continue
-				}
-				if outs := m.ev.call(fi.Decl, ptrVal(in(k)), nil, 1); len(outs) == 1 && !outs[0].Panic && outs[0].Unsupported == "" {
-					through = append(through, k.Name)
-				}
-			}
-			note := ""
-			if len(through) > 0 {
-				note = fmt.Sprintf(" (observation, not part of C10: the kind guard does not panic for %s ids because their mask contains %s)", strings.Join(through, ", "), own.MaskConst)
-			}
-			r.OK(c, pos, "guard is provably false for every %s id, result %s = ref[0..39]%s", own.Name, got.V, note)
+			r.OK(c, pos, "guard is provably false for every %s id, result %s = ref[0..39] (the other kinds: K7 kind-guard@)", own.Name, got.V)
 		}
 	default:
 		if _, _, isInt := m.ev.intType(resT); !isInt {
